@@ -1,11 +1,21 @@
 //! Conformance drivers (pv-traverse). Sub-commands are added per property.
+mod block;
+mod cbor;
+mod identity;
+mod raw;
 mod slot;
+mod utxo;
 
 fn main() {
     let args = pv_core::Args::parse();
     match args.cmd.as_str() {
         "slot-replay" => slot::replay(&args),
         "slot-trace" => slot::trace(&args),
+        "block-replay" => block::replay(&args),
+        "block-trace" => block::trace(&args),
+        "identity-trace" => identity::trace(&args),
+        "utxo-replay" => utxo::replay(&args),
+        "utxo-trace" => utxo::trace(&args),
         other => pv_core::die(&format!("unknown sub-command {other}")),
     }
 }
